@@ -382,7 +382,8 @@ func c38Gen(rng *rand.Rand, tier string) *gosim.Plan {
 			case x < 35:
 				p.Ops = append(p.Ops, gosim.Op{K: "mcast", A: []int64{c, a, g}})
 			case x < 50:
-				d := gosim.Pick(rng, 0, 30, 2000, 15000)
+				// (the last three: shortly before the end of the one-minute window)
+				d := gosim.Pick(rng, 0, 30, 2000, 15000, 45000, 58000, 59700)
 				if long && rng.Intn(2) == 0 {
 					d = gosim.Pick(rng, 61000, 75000, 100000)
 				}
